@@ -280,8 +280,21 @@ func GenerateFuzzyHash(t *FunctionTopology) string {
 func normalizeTypeName(t types.Type) string {
 	// The text of a func type spells out the NAMES of its parameters and results
 	// (func(x int) int): render its shape instead, so that renaming them changes nothing.
-	if sig, ok := types.Unalias(t).(*types.Signature); ok {
-		return signatureShape(sig)
+	switch u := types.Unalias(t).(type) {
+	case *types.Signature:
+		return signatureShape(u)
+	// ... also where the func type sits inside another type ([]func(x int) int), and a type
+	// parameter is named by its position (Fold[T] and Fold[Elem] are the same function).
+	case *types.Slice:
+		return "[]" + normalizeTypeName(u.Elem())
+	case *types.Array:
+		return fmt.Sprintf("[%d]%s", u.Len(), normalizeTypeName(u.Elem()))
+	case *types.Pointer:
+		return "*" + normalizeTypeName(u.Elem())
+	case *types.Map:
+		return "map[" + normalizeTypeName(u.Key()) + "]" + normalizeTypeName(u.Elem())
+	case *types.TypeParam:
+		return fmt.Sprintf("$T%d", u.Index())
 	}
 	s := t.String()
 	// Fix: Use regex to remove package paths (e.g., "github.com/pkg/")
